@@ -8,6 +8,7 @@ import (
 	"errors"
 	"fmt"
 	"io"
+	"strings"
 
 	"github.com/a-h/templ"
 )
@@ -38,6 +39,21 @@ func (c Card) View() templ.Component { return tagged("i", c.Value) }
 type Box[T any] struct{ Value T }
 
 func (b Box[T]) View() templ.Component { return tagged("b", fmt.Sprint(b.Value)) }
+
+// capture renders the children it was given into a buffer of its own (as a component that
+// post-processes them would) and writes the result between <u> tags.
+func capture() templ.Component {
+	return templ.ComponentFunc(func(ctx context.Context, w io.Writer) error {
+		children := templ.GetChildren(ctx)
+		ctx = templ.ClearChildren(ctx)
+		var captured strings.Builder
+		if err := children.Render(ctx, &captured); err != nil {
+			return err
+		}
+		_, err := io.WriteString(w, "<u>"+captured.String()+"</u>")
+		return err
+	})
+}
 
 func tagged(tag, text string) templ.Component {
 	return templ.ComponentFunc(func(ctx context.Context, w io.Writer) error {
